@@ -218,6 +218,10 @@ func build(c checkCfg, work string) (string, string, error) {
 	if c.Race {
 		args = append(args, "-race")
 	}
+	if os.Getenv("VERIF_COVER") != "" {
+		// measurement mode (not a check): statement coverage of the library under the check's own cases
+		args = append(args, "-cover", "-coverpkg=github.com/llir/llvm/...")
+	}
 	args = append(args, extra...)
 	args = append(args, c.Pkg)
 	cmd := exec.Command("go", args...)
@@ -266,6 +270,10 @@ func runShard(bin, work string, c checkCfg, tier string, seed int64, idx, n int,
 		args = append(args, "-test.run", "^TestReplay$", "-test.v")
 	} else {
 		args = append(args, "-test.skip", "^TestReplay$")
+	}
+	if d := os.Getenv("VERIF_COVER"); d != "" {
+		os.MkdirAll(d, 0o755)
+		args = append(args, "-test.coverprofile", filepath.Join(d, fmt.Sprintf("%s-%s-%d.out", filepath.Base(c.Pkg), tier, idx)))
 	}
 	cmd := exec.Command(bin, args...)
 	cmd.Dir = filepath.Join(root, c.Pkg)
